@@ -17,6 +17,18 @@ class NotStraight(Exception):
     pass
 
 
+class NeedChoice(Exception):
+    """an address-dependent condition (alignment test of the input pointer) was met: the caller re-runs with both outcomes"""
+
+    def __init__(self, key):
+        Exception.__init__(self, key)
+        self.key = key
+
+
+_SIZEOF = {'char': 1, 'unsigned char': 1, 'uint8_t': 1, 'int8_t': 1, 'short': 2, 'uint16_t': 2, 'int': 4, 'unsigned int': 4,
+           'uint32_t': 4, 'int32_t': 4, 'long': 8, 'unsigned long': 8, 'uint64_t': 8, 'int64_t': 8, 'size_t': 8, 'uintptr_t': 8}
+
+
 def width_of(e):
     t = (e.get('type') or {}).get('desugaredQualType') or qtype(e)
     t = t.replace('const ', '').strip()
@@ -406,6 +418,7 @@ class Forward:
         self.vg = vg
         self.residue = residue      # (symbol name, modulus B, value r): n & (B-1) and n % B evaluate to r
         self.depth = 0
+        self.choices = {}           # outcome chosen for address-dependent conditions (see NeedChoice)
 
     # ---- expressions
     def ev(self, e, env):
@@ -524,6 +537,8 @@ class Forward:
                     return vg.const(0)
                 if op == '||' and ((vg.is_const(va) and vg.cval(va)) or (vg.is_const(vb) and vg.cval(vb))):
                     return vg.const(1)
+                if self._addr_dependent(s):
+                    return self._choose(s)
                 raise NotStraight('comparison of non-constants: %s' % canon(s)[:50])
             return self.binop(op, va, vb, w)
         if k == 'ConditionalOperator':
@@ -535,8 +550,33 @@ class Forward:
         if k == 'CallExpr':
             return self.call(s, env)
         if k == 'UnaryExprOrTypeTraitExpr':
+            at = ((s.get('argType') or {}).get('qualType') or '').replace('const ', '').strip()
+            if s.get('name') == 'sizeof' and at in _SIZEOF:
+                return vg.const(_SIZEOF[at])
+            if s.get('name') == 'sizeof' and children(s):
+                at = (qtype(strip_parens(children(s)[0])) or '').replace('const ', '').strip()
+                if at in _SIZEOF:
+                    return vg.const(_SIZEOF[at])
             raise NotStraight('sizeof')
         raise NotStraight('expression kind %s' % k)
+
+    def _addr_dependent(self, s):
+        """the expression tests the ADDRESS held by a pointer (a cast of a pointer variable to an integer type): its outcome does not
+        depend on the data, the algorithm must give the same result either way"""
+        for x in walk(s):
+            if x.get('kind') == 'CStyleCastExpr':
+                t = (qtype(x) or '').replace('const ', '').strip()
+                if t in ('uintptr_t', 'intptr_t', 'size_t', 'unsigned long', 'long', 'uint64_t'):
+                    o = strip(children(x)[0])
+                    if (qtype(o) or '').rstrip().endswith('*'):
+                        return True
+        return False
+
+    def _choose(self, s):
+        key = canon(s)
+        if key not in self.choices:
+            raise NeedChoice(key)
+        return self.vg.const(1 if self.choices[key] else 0)
 
     def _residue(self, va, vb, how):
         vg = self.vg
